@@ -63,15 +63,23 @@ func loadHook(spec string, log *[]og.Ref) (func(og.Ref) (any, error), error) {
 			}
 			return nil, nil
 		}, nil
-	case strings.HasPrefix(spec, "F"):
+	case strings.HasPrefix(spec, "F"), strings.HasPrefix(spec, "G"):
 		k, err := strconv.Atoi(spec[1:])
 		if err != nil {
 			return nil, err
 		}
+		withValue := spec[0] == 'G'
 		return func(r og.Ref) (any, error) {
 			i := len(*log)
 			if i == k {
 				// the failing call is not logged: the model's log lives in the state, which a failing step does not return
+				if withValue {
+					// what `return db.get(oid)` gives when get returns ((*T)(nil), err): a non-nil interface AND an error
+					if i%2 == 0 {
+						return (*UserObj)(nil), errors.New("injected load failure")
+					}
+					return userObj(i), errors.New("injected load failure")
+				}
 				return nil, errors.New("injected load failure")
 			}
 			*log = append(*log, r)
@@ -237,6 +245,43 @@ func runCuts(pyDict, su bool, inp []byte) string {
 	}
 	return head + " " + string(letters)
 }
+
+// runCutsK: the full input and the listed proper prefixes, each handed to a fresh Decoder through a reader of the
+// given kind (B bytes.Reader, S strings.Reader, U bytes.Buffer — all with a Len method — R bufio over bytes.Reader,
+// O a reader exposing only Read).
+func runCutsK(pyDict, su bool, kind string, ks []int, inp []byte) string {
+	mk := func(b []byte) io.Reader {
+		switch kind {
+		case "B":
+			return bytes.NewReader(b)
+		case "S":
+			return strings.NewReader(string(b))
+		case "U":
+			return bytes.NewBuffer(append([]byte(nil), b...))
+		case "R":
+			return bufio.NewReader(bytes.NewReader(b))
+		}
+		return onlyReader{bytes.NewReader(b)}
+	}
+	dec := func(b []byte) byte {
+		d := og.NewDecoderWithConfig(mk(b), &og.DecoderConfig{StrictUnicode: su, PyDict: pyDict})
+		v, err, p := decodeOne(d)
+		return cutLetter(v, err, p)
+	}
+	out := []byte{dec(inp), ' '}
+	for _, k := range ks {
+		if k < 0 || k > len(inp) {
+			out = append(out, '?')
+			continue
+		}
+		out = append(out, dec(inp[:k]))
+	}
+	return string(out)
+}
+
+type onlyReader struct{ r io.Reader }
+
+func (o onlyReader) Read(p []byte) (int, error) { return o.r.Read(p) }
 
 // chunkedReader delivers the input according to a schedule of chunk sizes
 // (0 = an empty read; the last chunk may be delivered together with io.EOF).
@@ -613,6 +658,27 @@ func handle(line string) string {
 			return runAlloc(pd, su, []byte(s))
 		}
 		return runCuts(pd, su, []byte(s))
+	case "cutsk":
+		if len(f) != 5 {
+			return "BADCASE"
+		}
+		pd, su, err := parseCfg(f[1])
+		if err != nil {
+			return "BADCASE"
+		}
+		var ks []int
+		for _, t := range strings.Split(f[3], ",") {
+			k, err := strconv.Atoi(t)
+			if err != nil {
+				return "BADCASE"
+			}
+			ks = append(ks, k)
+		}
+		s, err := unhexOrDash(f[4])
+		if err != nil {
+			return "BADCASE"
+		}
+		return runCutsK(pd, su, f[2], ks, []byte(s))
 	case "decr":
 		if len(f) != 4 {
 			return "BADCASE"
